@@ -217,19 +217,38 @@ func itoa(i int) string {
 // prefixes through that very node (same variable cell). A text taken from
 // anywhere else (e.g. the expression of an already compiled machine) would be
 // compiled in the prefix scope of a different module.
-func c15TextAndScope(w *World, r *Report) {
+func c15TextAndScope(w *World, r *Report, rule string, want func(fn string) bool) {
 	sp := w.SSAPkg("compile")
 	ctors := map[string]bool{}
 	for _, n := range []string{"NewExprMachine", "NewExprMachineWithCustomFunctions", "NewLeafrefMachine", "NewPathEvalMachine", "NewPathEvalMachineWithCustomFns"} {
 		ctors[n] = true
 	}
-	cellOf := func(v ssa.Value) ssa.Value {
+	// cellOf: the variable a value is read from, named canonically: a cell
+	// that only ever holds one parameter (a parameter captured by a closure
+	// is spilled into such a cell) stands for that parameter
+	var cellOf func(v ssa.Value) ssa.Value
+	cellOf = func(v ssa.Value) ssa.Value {
 		if u, ok := v.(*ssa.UnOp); ok && u.Op == token.MUL {
 			if a, ok := u.X.(*ssa.Alloc); ok {
-				return a
+				return cellOf(a)
 			}
 			if fv, ok := u.X.(*ssa.FreeVar); ok {
 				return fv
+			}
+		}
+		if a, ok := v.(*ssa.Alloc); ok {
+			var only ssa.Value
+			n := 0
+			for _, ref := range *a.Referrers() {
+				if st, ok := ref.(*ssa.Store); ok && st.Addr == ssa.Value(a) {
+					n++
+					only = st.Val
+				}
+			}
+			if n == 1 {
+				if p, ok := only.(*ssa.Parameter); ok {
+					return p
+				}
 			}
 		}
 		return v
@@ -260,9 +279,38 @@ func c15TextAndScope(w *World, r *Report) {
 		return -1
 	}
 	// scopeCell: the variable cell of the node through which the closure resolves prefixes
-	scopeCell := func(v ssa.Value) (ssa.Value, string) {
+	var scopeCell func(v ssa.Value, depth int) (ssa.Value, string)
+	scopeCell = func(v ssa.Value, depth int) (ssa.Value, string) {
 		if ct, ok := v.(*ssa.ChangeType); ok {
 			v = ct.X
+		}
+		// a helper of the package that builds the closure from a statement it is given
+		if call, ok := v.(*ssa.Call); ok && depth < 2 {
+			if h := call.Call.StaticCallee(); h != nil && h.Pkg == sp && h.Blocks != nil {
+				var inner ssa.Value
+				n := 0
+				for _, hb := range h.Blocks {
+					if ret, ok := hb.Instrs[len(hb.Instrs)-1].(*ssa.Return); ok && len(ret.Results) == 1 {
+						n++
+						inner = ret.Results[0]
+					}
+				}
+				if n != 1 {
+					return nil, "the prefix map comes from " + h.Name() + ", which has several results"
+				}
+				cell, why := scopeCell(inner, depth+1)
+				if cell == nil {
+					return nil, h.Name() + ": " + why
+				}
+				if hp, ok := cell.(*ssa.Parameter); ok && hp.Parent() == h {
+					for i, q := range h.Params {
+						if q == hp && i < len(call.Call.Args) {
+							return cellOf(call.Call.Args[i]), ""
+						}
+					}
+				}
+				return nil, h.Name() + " resolves prefixes through something other than a statement it is given"
+			}
 		}
 		mc, ok := v.(*ssa.MakeClosure)
 		if !ok {
@@ -279,7 +327,7 @@ func c15TextAndScope(w *World, r *Report) {
 				if fv, ok := cellOf(cc.Call.Value).(*ssa.FreeVar); ok {
 					for i, x := range cf.FreeVars {
 						if x == fv && i < len(mc.Bindings) {
-							cell = mc.Bindings[i]
+							cell = cellOf(mc.Bindings[i])
 						}
 					}
 				}
@@ -309,7 +357,7 @@ func c15TextAndScope(w *World, r *Report) {
 			}
 			return true, "text and prefix map handed through from callers that satisfy the rule"
 		}
-		cell, why := scopeCell(mapFn)
+		cell, why := scopeCell(mapFn, 0)
 		if cell == nil {
 			return false, why
 		}
@@ -341,11 +389,21 @@ func c15TextAndScope(w *World, r *Report) {
 				if !ok || c.Call.StaticCallee() == nil || !ctors[c.Call.StaticCallee().Name()] || len(c.Call.Args) < 2 {
 					continue
 				}
+				// a helper only one of the named functions uses counts as that function
+				named := false
+				for _, g := range w.OwnerChain(f) {
+					if g.Name() == "BuildWhens" || g.Name() == "BuildMusts" || g.Name() == "getPath" {
+						named = true
+					}
+				}
+				if want != nil && !named {
+					continue
+				}
 				fk := funcKey(f)
 				n[fk+c.Call.StaticCallee().Name()]++
 				what := fmt.Sprintf("%s: %s #%d", fk, c.Call.StaticCallee().Name(), n[fk+c.Call.StaticCallee().Name()])
 				ok2, why := check(c.Call.Args[0], c.Call.Args[1], 0)
-				r.Check(ok2, "R15.5", what, c.Pos(), why, why+": the expression would be compiled in the prefix scope of a different statement/module than the one it is written in")
+				r.Check(ok2, rule, what, c.Pos(), why, why+": the expression would be compiled in the prefix scope of a different statement/module than the one it is written in")
 			}
 		}
 	}
@@ -657,36 +715,68 @@ func c12EveryWhenMust(w *World, r *Report) {
 // the legality check and the edit of one property happen in the same
 // iteration, check first.
 func c14DeviateInterleaved(w *World, r *Report) {
-	f := w.SSAFunc(w.Method("compile", "Compiler", "doDeviate"))
-	if f == nil {
+	root := w.SSAFunc(w.Method("compile", "Compiler", "doDeviate"))
+	if root == nil {
 		panic(undecided{"Compiler.doDeviate"})
 	}
-	var chk, act *ssa.BasicBlock
-	for _, b := range f.Blocks {
-		for _, in := range b.Instrs {
-			c, ok := in.(*ssa.Call)
-			if !ok || !c.Call.IsInvoke() {
-				continue
-			}
-			switch c.Call.Method.Name() {
-			case "isAllowed":
-				chk = b
-			case "propertyAction":
-				act = b
+	// doDeviate and the helpers only it uses
+	var cone []*ssa.Function
+	for _, g := range allFuncs(w.SSAPkg("compile")) {
+		if !isTestFile(w, g.Pos()) && w.OwnedBy(g, root) {
+			cone = append(cone, g)
+		}
+	}
+	var chk, act *ssa.Call
+	for _, g := range cone {
+		for _, b := range g.Blocks {
+			for _, in := range b.Instrs {
+				c, ok := in.(*ssa.Call)
+				if !ok || !c.Call.IsInvoke() {
+					continue
+				}
+				switch c.Call.Method.Name() {
+				case "isAllowed":
+					chk = c
+				case "propertyAction":
+					act = c
+				}
 			}
 		}
 	}
 	if chk == nil || act == nil {
 		panic(undecided{"doDeviate: isAllowed / propertyAction calls"})
 	}
-	same := false
-	for _, l := range ssaLoops(f) {
-		body := l.body()
-		if body[chk] && body[act] && chk.Dominates(act) {
-			same = true
+	// the innermost loop an instruction runs in, seen from doDeviate: its own
+	// function's loop, or the loop around the call that enters its function
+	var loopCtx func(in ssa.Instruction, d int) string
+	loopCtx = func(in ssa.Instruction, d int) string {
+		g := in.Parent()
+		if l, ok := loopOf(g, in.Block()); ok {
+			return fmt.Sprintf("%s#%d", g.Name(), l.Header.Index)
 		}
+		if g == root || d > 4 {
+			return ""
+		}
+		ctx := ""
+		n := 0
+		for _, h := range cone {
+			for _, b := range h.Blocks {
+				for _, i2 := range b.Instrs {
+					if c, ok := i2.(ssa.CallInstruction); ok && c.Common().StaticCallee() == g {
+						n++
+						ctx = loopCtx(c, d+1)
+					}
+				}
+			}
+		}
+		if n != 1 {
+			return "?"
+		}
+		return ctx
 	}
-	r.Check(same, "R14.10", "doDeviate checks and applies property by property", f.Pos(), "isAllowed(p) then propertyAction(p) in the same iteration", "all properties are checked against the unmodified target before any is applied: a deviate that names the same single-instance property twice (`deviate add { default 1; default 2; }`) is accepted")
+	lc, la := loopCtx(chk, 0), loopCtx(act, 0)
+	same := lc != "" && lc != "?" && lc == la && chk.Parent() == act.Parent() && chk.Block().Dominates(act.Block())
+	r.Check(same, "R14.10", "doDeviate checks and applies property by property", root.Pos(), "isAllowed(p) then propertyAction(p) in the same iteration", "all properties are checked against the unmodified target before any is applied: a deviate that names the same single-instance property twice (`deviate add { default 1; default 2; }`) is accepted")
 }
 
 // R20.7  checks that run on the built (already filtered) children never turn
